@@ -228,8 +228,11 @@ impl Basis {
         for (i, (&x_i, &d_i)) in x_basic.iter().zip(direction.iter()).enumerate() {
             // Only consider positive direction (leaving basis)
             if d_i > tolerance {
-                let ratio = x_i / d_i;
-                if ratio >= 0.0 && ratio < best_ratio {
+                // A basic variable of a primal feasible basis is >= 0; a negative value is a
+                // rounding residue of a variable sitting at zero (degenerate vertex). Such a
+                // row blocks the step at length zero, it must not be dropped from the test.
+                let ratio = x_i.max(0.0) / d_i;
+                if ratio < best_ratio {
                     best_ratio = ratio;
                     best_idx = Some(i);
                 }
